@@ -386,6 +386,12 @@ def check_guard_order(ctx, F):
                 elif ev[0] == "assume" and "Guard" in ev[2]:
                     seq.append("+" if ev[3] else "-")
             seqs.add(tuple(seq))
+            if gc_args is None and seq:
+                # every round judges its guards on a control of its own: a GuardControl handed in from outside (and reused across rounds) carries
+                # the `_cancelled` flag of a vetoed round into the next one, where every guard then counts as approving
+                ctx.violation("C04.guard-order", site + "/fresh-control", "%s (%s)" % (site, F.floc(fid)),
+                              "%s does not construct the GuardControl the guards of the round run on: a control shared between rounds keeps `_cancelled` "
+                              "set after a veto, and S_::deep*Guard returns `cancelledBefore || !_cancelled`" % site, {})
             if gc_args is not None and not (len(gc_args) == 3 and gc_args[1] == "P:currentTransitions" and gc_args[2] == "P:pendingTransitions"):
                 ctx.violation("C04.guard-order", site + "/control", "%s (%s)" % (site, F.floc(fid)),
                               "GuardControl is not built from (core, currentTransitions, pendingTransitions): %s" % gc_args, {})
